@@ -38,7 +38,7 @@ hs_decimal = Combine(
 )
 hs_unitChar = hs_alpha | Regex(u'[%_/$\u0080-\U0010ffff]')
 hs_unit = Combine(OneOrMore(hs_unitChar))
-hs_digit = Regex(r'\d')
+hs_digit = Regex(r'[0-9]')
 hs_digits = Regex(r'[0-9_]+')
 hs_quantity = (hs_decimal + hs_unit).leaveWhitespace().setParseAction(
     lambda toks: Quantity(toks[0], toks[1])
